@@ -243,6 +243,9 @@ func dropHomomorphicIndexes(_ *zap.Logger, _ *bbolt.Tx, b *bbolt.Bucket, _ cid.I
 		keysToDrop   [][]byte
 	)
 	attrIDPrefix = append(attrIDPrefix, []byte(object.FilterPayloadHomomorphicHash)...)
+	// the delimiter belongs to the prefix: without it attributes whose key merely
+	// starts with the homomorphic hash filter name lose their index entries
+	attrIDPrefix = append(attrIDPrefix, objectcore.MetaAttributeDelimiter...)
 	k, _ = c.Seek(attrIDPrefix)
 	for ; bytes.HasPrefix(k, attrIDPrefix); k, _ = c.Next() {
 		keysToDrop = append(keysToDrop, k)
